@@ -596,6 +596,53 @@ func (tt *TermTable) Extract(a *Term, hi, lo int) *Term {
 	if a.op == OpIte && (a.a[1].op == OpConst || a.a[2].op == OpConst) {
 		return tt.Ite(a.a[0], tt.Extract(a.a[1], hi, lo), tt.Extract(a.a[2], hi, lo))
 	}
+	switch a.op {
+	case OpBOr, OpBAnd, OpBXor:
+		// bit-slicing distributes over bitwise operators
+		x, y := tt.Extract(a.a[0], hi, lo), tt.Extract(a.a[1], hi, lo)
+		return tt.Bin(a.op, x, y)
+	case OpShl:
+		if k := a.a[1]; k.op == OpConst {
+			sh := int(k.val)
+			switch {
+			case hi < sh:
+				return tt.BV(w, 0)
+			case lo >= sh:
+				return tt.Extract(a.a[0], hi-sh, lo-sh)
+			}
+		}
+	case OpLShr:
+		if k := a.a[1]; k.op == OpConst {
+			sh := int(k.val)
+			if hi+sh < int(a.sort) {
+				return tt.Extract(a.a[0], hi+sh, lo+sh)
+			}
+			if lo+sh >= int(a.sort) {
+				return tt.BV(w, 0)
+			}
+		}
+	case OpZExt:
+		xs := int(a.a[0].sort)
+		switch {
+		case lo >= xs:
+			return tt.BV(w, 0)
+		case hi < xs:
+			return tt.Extract(a.a[0], hi, lo)
+		default:
+			return tt.ZExt(tt.Extract(a.a[0], xs-1, lo), w)
+		}
+	case OpExtract:
+		ilo := int(a.val & 0xff)
+		return tt.Extract(a.a[0], hi+ilo, lo+ilo)
+	case OpConcat:
+		ls := int(a.a[1].sort)
+		switch {
+		case hi < ls:
+			return tt.Extract(a.a[1], hi, lo)
+		case lo >= ls:
+			return tt.Extract(a.a[0], hi-ls, lo-ls)
+		}
+	}
 	return tt.mk(OpExtract, w, uint64(hi)<<8|uint64(lo), a)
 }
 
